@@ -145,6 +145,11 @@ def run(chk, failed):
         lines.append(ln)
         parsed.append(G.parse_any(ln))
         tags.append("conf")
+    for _ in range(int(120 * (scale if not chk.thorough else 8.0))):
+        ln = G.fmt_seq(G.gen_seq(chk.rng, G.shipped_templates(C.REPO)))
+        lines.append(ln)
+        parsed.append(G.parse_any(ln))
+        tags.append("seq")
     if failed:
         # a table obligation (typecheck / json_skeleton_ok of a shipped template, data_offers) or a theorem no longer
         # checks: look for a concrete status on which the real template fails, inside the property's domain
@@ -160,6 +165,9 @@ def run(chk, failed):
                 "(nil partition entry, nil Start/End); plus notifier sections of 1-4 modules (classes http/email/null, template-open / "
                 "template-close any pair of shipped files, send-close on/off, files shared between modules) run through the real "
                 "Coordinator.Configure with its default parser 6 times each, executing the template objects it stored; plus a concurrent "
+                "sequences of 2-4 replies about two groups (open, repeat, close) through the real checkAndSendResponseToModules / notifyModule / "
+                "HTTPNotifier.Notify (local HTTP server) / EmailNotifier.Notify (sendMailFunc seam) under the virtual clock, extras with URL-reserved "
+                "characters, every body compared with the configured template on the expected data; plus a concurrent "
                 "stream (statuses with per-case distinct names rendered from 8/12/16 goroutines at once, byte-for-byte against the sequential output); "
                 "non-trivial = at least one partition is listed; distinct by case line")
     impl, model, mism = _differential(chk, lines, "render")
@@ -170,7 +178,13 @@ def run(chk, failed):
     for i, (ln, c, tg, a, b) in enumerate(zip(lines, parsed, tags, impl, model)):
         if c["partitions"]:
             chk.nontrivial.add(C.case_hash(ln))
-        if c.get("kind") == "conf":
+        if c.get("kind") == "seq":
+            chk.count("seq:steps=%d" % len(c["steps"]))
+            chk.count("seq:notifications", len(G.seq_expected(c)))
+            chk.count("seq:impl=" + ("mismatch" if ("MISMATCH" in a or a.startswith("SEQ-")) else "agrees"))
+            for m in c["mods"]:
+                chk.count("seq:class=" + m["class"])
+        elif c.get("kind") == "conf":
             chk.count("conf:modules=%d" % len(c["mods"]))
             for m in c["mods"]:
                 chk.count("conf:class=" + m["class"])
@@ -181,7 +195,9 @@ def run(chk, failed):
         chk.count("template:" + c["template"])
         chk.count("status:" + G.STATUS.get(c["status"], "other"))
         chk.count("mode:" + tg)
-        if c.get("kind") != "conf":
+        if c.get("kind") == "seq":
+            pass
+        elif c.get("kind") != "conf":
             chk.count("impl:" + a.split(" ")[0] + ("" if " " not in a else " " + a.split(" ")[1]))
         else:
             chk.count("conf:impl=" + ("mismatch" if ("MISMATCH" in a or a.startswith("CONFIGURE-PANIC")) else "agrees"))
@@ -192,10 +208,15 @@ def run(chk, failed):
             failing += 1
             if reported < 5:
                 reported += 1
-                chk.violation(("conf_%d" if c.get("kind") == "conf" else "render_%d") % i, {
+                chk.violation((c.get("kind", "render") + "_%d") % i, {
                     "kind": "input", "probe": "notifier/TestVerifProbeTmpl", "case": ln, "describe": G.describe_any(c),
                     "impl_output": a, "model_output": b, "oracle_verdict": fails,
-                    "broken": ("C20: every configured module executes the template its template-open / template-close key names "
+                    "decoded": (_decode_diff(next((e for e in a.split(" | ") if "MISMATCH" in e), ""))
+                                if c.get("kind") == "seq" else None),
+                    "broken": ("C20: the data a module hands to its templates offers the cluster, group, event id, INCIDENT start time, "
+                               "CONFIGURED extras and the status, whatever was notified before (C20_module_data_offers_configured), "
+                               "and the templates render on it" if c.get("kind") == "seq" else
+                               "C20: every configured module executes the template its template-open / template-close key names "
                                "(C20_module_renders_configured_template), and it renders" if c.get("kind") == "conf" else
                                "C20: every shipped template renders (to well-formed JSON) for every status"),
                     "cmd": "bin/check C20 --replay <this file>"})
@@ -237,6 +258,8 @@ def run(chk, failed):
         "hole languages (Json.inst): what Go prints for an integer or a finite float is a JSON number literal (go_number grammar proved to be one), "
         "json.Marshal output is a text json.Valid accepts, time.Format / String-method output is JSON-string-safe",
         "value-receiver methods with a single string result (StatusConstant.String, time.Time.Format) are total",
+        "what the module classes hand to executeTemplate: Tmpl.notify_step models Notify as reading its extras and leaving them alone; that the real "
+        "HTTPNotifier / EmailNotifier (and notifyModule's choice of start time) do so is established by the seq cases of the probe, not by proof",
         "in the model rendering is a pure function of template and data; that executeTemplate, the shipped templates and the helper functions "
         "are re-entrant (the coordinator renders every evaluator response in its own goroutine) is established by the concurrent "
         "stream of the probe (8/12/16 goroutines x 3 rounds, byte-for-byte against the sequential rendering; thorough tier also under -race), not by proof",
@@ -279,7 +302,7 @@ def replay(path):
         return 1 if fails else 0
     pre(chk)
     C.build_coq()
-    if case.startswith("conf "):
+    if case.startswith("conf ") or case.startswith("seq "):
         impl, model, mism = chk.differential("tmpl", "tmpl", "TestVerifProbeTmpl", [case], name="replay")
     else:
         impl, model, mism = chk.differential("tmpl", "tmpl", "TestVerifProbeTmpl", [case], name="replay",
